@@ -13,7 +13,12 @@ PROPS["C18"] = {
                     "values of different kinds are taken to be unequal and unordered (DESIGN.md C18)",
                     "a null `const char*` / `JsonString()` is null (the library's own reading: it equals a null variant and set() stores null)",
                     "the harness self-check (shard 0) verifies through as<>/is<>/serializeJson that every builder stored the value its reference describes",
-                    "default configuration (ARDUINOJSON_USE_LONG_LONG=1, ARDUINOJSON_USE_DOUBLE=1), 64-bit host"],
-    "quick": [{"src": "checks/nx_compare.cpp", "mode": "compare", "deps": ["checks/nx_compare.hpp"]}],
-    "thorough": [{"src": "checks/nx_compare.cpp", "mode": "compare", "deps": ["checks/nx_compare.hpp"]}],
+                    "two configurations: the default (ARDUINOJSON_USE_DOUBLE=1) and ARDUINOJSON_USE_DOUBLE=0, where the reference of a value stored "
+                    "through set(double) / parsed as a non-integer is (double)(float)x, integers keep exact 64-bit storage and a C++ double scalar "
+                    "operand keeps its full value (keys of that job end in |cfg=nodouble); ARDUINOJSON_USE_LONG_LONG=1, 64-bit host"],
+    "quick": [{"src": "checks/nx_compare.cpp", "mode": "compare", "deps": ["checks/nx_compare.hpp"]},
+              {"src": "checks/nx_compare.cpp", "mode": "compare", "deps": ["checks/nx_compare.hpp"], "defs": ["ARDUINOJSON_USE_DOUBLE=0"]}],
+    "thorough": [{"src": "checks/nx_compare.cpp", "mode": "compare", "deps": ["checks/nx_compare.hpp"]},
+                 {"src": "checks/nx_compare.cpp", "mode": "compare", "deps": ["checks/nx_compare.hpp"], "defs": ["ARDUINOJSON_USE_DOUBLE=0"],
+                  "args": ["--flat"]}],
 }
